@@ -3,7 +3,7 @@
     python -m gev.seedkeep <worktree> <property> <name> [--suite] [--checks C01,C03]
 
 Steps (nothing touches /repo): diff of the worktree -> patch.diff; demonstration must fail WITH the change and pass
-WITHOUT it (git stash in the worktree); optionally the repository's own suite is run in the worktree; the named
+WITHOUT it (patch reversed in the worktree); optionally the repository's own suite is run in the worktree; the named
 checks (default: the property's own quick check) are run with GEV_REPO_ROOT=<worktree>; meta.json records it all."""
 
 from __future__ import annotations
@@ -49,13 +49,14 @@ def main(argv):
     with_change = sh([core.PY, "demo_break.py"], wt, env, 900)
     meta["demo_with_change_exit"] = with_change.returncode
     meta["demo_with_change_tail"] = (with_change.stdout + with_change.stderr)[-400:]
-    sh(["git", "-C", wt, "stash"], wt)
+    # (not `git stash`: the stash is shared by every worktree of the repository, and seeding agents work in siblings)
+    sh(["git", "-C", wt, "apply", "-R", str(out / "patch.diff")], wt)
     try:
         without = sh([core.PY, "demo_break.py"], wt, env, 900)
     finally:
-        sh(["git", "-C", wt, "stash", "pop"], wt)
+        sh(["git", "-C", wt, "apply", str(out / "patch.diff")], wt)
     meta["demo_without_change_exit"] = without.returncode
-    meta["ran"].append(f"PYTHONPATH=<worktree> python demo_break.py with the change (exit {with_change.returncode}) and with it stashed (exit {without.returncode}); {time.monotonic() - t0:.0f}s")
+    meta["ran"].append(f"PYTHONPATH=<worktree> python demo_break.py with the change (exit {with_change.returncode}) and with it reversed (exit {without.returncode}); {time.monotonic() - t0:.0f}s")
     meta["demo_confirmed"] = with_change.returncode != 0 and without.returncode == 0
     if suite:
         t0 = time.monotonic()
